@@ -1,6 +1,7 @@
 package props
 
 import (
+	structform "github.com/elastic/go-structform"
 	"github.com/elastic/go-structform/gotype"
 
 	"verif/harness/ev"
@@ -39,4 +40,47 @@ func FOLD_S1(h *rt.H) {
 	h.Assert("no-error", err == nil)
 	h.Assert("events", ev.Equal(ev.Normalise(rec.Events), want))
 	h.Assert("contract", ev.Contract(rec.Events) == "")
+}
+
+// tagsT / setT: named slice and map types with a custom Folder; their unnamed forms
+// have built-in folders, so a fast path taken too early would bypass the custom one.
+type tagsT []string
+
+func (t tagsT) Fold(v structform.ExtVisitor) error { return v.OnString("custom-tags") }
+
+type setT map[string]bool
+
+func (s setT) Fold(v structform.ExtVisitor) error { return v.OnInt8(int8(len(s))) }
+
+type withFolder struct {
+	T tagsT
+	S setT `struct:"s"`
+}
+
+// FOLD_Folder (C12): a value whose type implements Folder is folded exactly as that
+// folder emits it: at top level, as a value of generic containers, as a struct field.
+func FOLD_Folder(h *rt.H) {
+	where := h.Choose("where", 0, 4)
+	t := tagsT{"a", "b"}
+	s := setT{"x": true}
+	var v interface{}
+	var want []ev.Event
+	ct := ev.Event{K: ev.String, Str: []byte("custom-tags")}
+	cs := ev.NumEvent(false, 1)
+	switch where {
+	case 0:
+		v, want = t, []ev.Event{ct}
+	case 1:
+		v, want = s, []ev.Event{cs}
+	case 2:
+		v, want = []interface{}{t, s}, []ev.Event{{K: ev.ArrStart}, ct, cs, {K: ev.ArrEnd}}
+	case 3:
+		v, want = map[string]interface{}{"k": t}, []ev.Event{{K: ev.ObjStart}, {K: ev.Key, Str: []byte("k")}, ct, {K: ev.ObjEnd}}
+	case 4:
+		v, want = withFolder{T: t, S: s}, []ev.Event{{K: ev.ObjStart}, {K: ev.Key, Str: []byte("t")}, ct, {K: ev.Key, Str: []byte("s")}, cs, {K: ev.ObjEnd}}
+	}
+	var rec ev.Recorder
+	err := gotype.Fold(v, &rec)
+	h.Assert("no-error", err == nil)
+	h.Assert("custom-folder-used", ev.Equal(ev.Normalise(rec.Events), want))
 }
